@@ -313,6 +313,41 @@ def check_accumulation(ix, rep, cls, rule='R-ACCUM'):
         rep.fail(rule, ex.module.rel, ex.qual, 'gate', 'explain() does not start from ([[0,0]], violated) guarded by `top_signal[0] < 0`', ex.node.lineno)
 
 
+def check_union(ix, rep, rule='R-ACCUM'):
+    """the merging primitive: sorted iteration, overlap-or-adjacent test, merged end = max of the two ends"""
+    n = 0
+    for modn in (LTL_MOD, STL_MOD):
+        m = ix.module(modn)
+        f = m.functions.get('interval_union')
+        if f is None:
+            continue
+        n += 1
+        rep.analysed(f)
+        loop = [s for s in f.node.body if isinstance(s, ast.For)]
+        probs = []
+        if not loop or 'sorted(' not in ast.unparse(loop[0].iter):
+            probs.append('does not iterate over the intervals in sorted order')
+        else:
+            b, e = [x.id for x in loop[0].target.elts] if isinstance(loop[0].target, ast.Tuple) else (None, None)
+            merged = None
+            for st in ast.walk(loop[0]):
+                if isinstance(st, ast.Assign) and isinstance(st.targets[0], ast.Subscript) and ast.unparse(st.targets[0]).replace(' ', '') == 'out[-1][1]':
+                    merged = st.value
+            if merged is None:
+                probs.append('never extends the last interval')
+            else:
+                ok = isinstance(merged, ast.Call) and getattr(merged.func, 'id', None) == 'max' and \
+                    sorted(ast.unparse(a).replace(' ', '') for a in merged.args) == sorted(['out[-1][1]', e])
+                if not ok:
+                    probs.append('extends the last interval to `%s` instead of max(old end, new end): an interval nested in the previous one shrinks the union' % ast.unparse(merged))
+        if probs:
+            for pr in probs:
+                rep.fail(rule, m.rel, 'interval_union', 'union', 'interval_union %s' % pr, f.node.lineno)
+        else:
+            rep.ok(rule, m.rel, 'interval_union', 'union', 'sorted, overlap-or-adjacent merge keeps the larger end', f.node.lineno)
+    return n
+
+
 def check(ix, rep):
     hs = helpers(ix)
     rep.floor('explanation helper functions', len(hs), 45)
@@ -326,6 +361,8 @@ def check(ix, rep):
     na = check_all_intervals(ix, rep, hs)
     rep.floor('helpers checked for honouring every interval', na, 20)
     check_accumulation(ix, rep, cls)
+    nu = check_union(ix, rep)
+    rep.floor('interval_union definitions', nu, 2)
     explanation = (
         'Necessary structural conditions of "the reported samples are a sufficient cause", each of which a concrete failing input exists for when '
         'broken. R-EXH: every operator of the supported fragment has an explanation handler, until/since/precedes are rejected with '
